@@ -119,8 +119,8 @@ def in_stream(data, blocked=False):
     in them needs a seekable source."""
     import zlib
     h = zlib.crc32(bytes(data))
-    if blocked and h % 5 == 2:
-        return _BlockAtATime(bytes(data), (1014, 1500, 4096)[(h >> 4) % 3])
+    # (sources that hand over LESS than asked for - _BlockAtATime - were tried for blocked readers and withdrawn: the
+    # properties speak of files, and a rewrite that fetches several blocks with one read() is right for every file)
     if h & 1:
         return io.BufferedReader(_PipeLike(bytes(data)))
     return io.BytesIO(data)
